@@ -113,27 +113,42 @@ class Sess:
         self.peer.fsm.change(FSM.IDLE)
 
 
-P = ['10.0.1.0/24', '10.0.2.0/24', '10.0.3.0/24']
+P = ['10.0.1.0/24', '10.0.2.0/24', '10.0.3.0/24', '2001:db8:1::/48']
+
+
+def _route(k, med):
+    return route(P[k], med, nh='2001:db8::1') if ':' in P[k] else route(P[k], med)
+
+
+def _key(k):
+    import socket
+
+    if ':' in P[k]:
+        return (2, 48, socket.inet_pton(socket.AF_INET6, P[k].split('/')[0])[:6])
+    return (1, 24, socket.inet_aton(P[k].split('/')[0])[:3])
 
 
 def apply(rib, op):
     if op[0] == 'ann':
-        rib.add_to_rib(route(P[op[1]], op[2]))
+        rib.add_to_rib(_route(op[1], op[2]))
     elif op[0] == 'wd':
-        rib.del_from_rib(route(P[op[1]], None))
+        rib.del_from_rib(_route(op[1], None))
     elif op[0] == 'resend':
         rib.resend(False)  # what `flush adj-rib out` (and a ROUTE-REFRESH from the peer) does
     elif op[0] == 'clear':
         rib.withdraw()  # `clear adj-rib out`
 
 
-def one_case(before_ops, cut, down_ops, per_iteration=25, after_ops=()):
+V6_WORLD = dict(routes={'A': 10, 'V6': None}, hold=180, families='ipv4 unicast; ipv6 unicast;')
+
+
+def one_case(before_ops, cut, down_ops, per_iteration=25, after_ops=(), v6=False):
     """before_ops: API operations issued on an established session; the session then sends `cut` messages and drops;
     down_ops are issued while it is down; then it is re-established"""
-    inp = {'before': [list(o) for o in before_ops], 'cut_after_messages': cut, 'while_down': [list(o) for o in down_ops], 'routes_per_iteration': per_iteration, 'after_resync': [list(o) for o in after_ops]}
+    inp = {'before': [list(o) for o in before_ops], 'cut_after_messages': cut, 'while_down': [list(o) for o in down_ops], 'routes_per_iteration': per_iteration, 'after_resync': [list(o) for o in after_ops], 'ipv6_route_configured': v6}
     # building the world and the first session is harness set-up: if it fails the CHECK is broken (exception
     # propagates -> checker crash), it is never reported as a violation of the property
-    w = c17.World(dict(routes={'A': 10}, hold=180))  # one configured route: 10.0.1.0/24 med 10
+    w = c17.World(V6_WORLD if v6 else dict(routes={'A': 10}, hold=180))  # one configured route: 10.0.1.0/24 med 10 (v6: and 2001:db8:1::/48)
     key = list(w.peers())[0]
     s = Sess(w, key)
     if not s.settle():
@@ -165,6 +180,8 @@ def one_case(before_ops, cut, down_ops, per_iteration=25, after_ops=()):
     import socket
 
     model = {0: 10}  # 10.0.1.0/24 med 10 is configured
+    if v6:
+        model[3] = None
     for op in list(before_ops) + list(down_ops) + list(after_ops):
         if op[0] == 'ann':
             model[op[1]] = op[2]
@@ -172,7 +189,7 @@ def one_case(before_ops, cut, down_ops, per_iteration=25, after_ops=()):
             model.pop(op[1], None)
         elif op[0] == 'clear':
             model = {}
-    intended = {(1, 24, socket.inet_aton(P[k].split('/')[0])[:3]): ('192.0.2.1', med) for k, med in model.items()}
+    intended = {_key(k): ('2001:db8::1' if ':' in P[k] else '192.0.2.1', med) for k, med in model.items()}
     want = reported(rib)
     got = s.table.table
     if got != intended:
@@ -208,6 +225,13 @@ def loss_at_every_cut(tier, seed):
         rnd.shuffle(cases)
         cases = cases[:400]
     work = [(before, cut, down, per) for before, cut, down in cases for per in (25, 1)]
+    # a route of another family than IPv4 unicast withdrawn while down (or changed, or left alone): the new session must
+    # not start with an End-of-RIB -- an UPDATE which says nothing IS the End-of-RIB of IPv4 unicast
+    for down in ((('wd', 3, None),), (('wd', 3, None), ('wd', 0, None)), (('ann', 3, 7),), (), (('wd', 3, None), ('ann', 3, 9))):
+        for before in ((), (('ann', 1, 10),)):
+            for cut in (0, len(before) + 1):
+                for per in (25, 1):
+                    work.append((before, cut, down, per, (), True))
     # a refresh (flush adj-rib out / ROUTE-REFRESH) queued while the session is down, then a withdraw of what it holds:
     # in the first window of the new session withdraws are not sent, so a stale copy in the refresh is announced for good
     for down in ((('resend',), ('wd', 1, None)), (('resend',), ('wd', 0, None)), (('resend',), ('clear',)), (('resend',), ('wd', 1, None), ('ann', 1, 20)), (('wd', 1, None), ('resend',))):
@@ -242,7 +266,7 @@ def loss_at_every_cut(tier, seed):
 @replayer('C11', 'loss-at-every-cut')
 def _replay(f):
     i = f['input']
-    return one_case([tuple(o) for o in i['before']], i['cut_after_messages'], [tuple(o) for o in i['while_down']], i.get('routes_per_iteration', 25), [tuple(o) for o in i.get('after_resync', [])]) is None
+    return one_case([tuple(o) for o in i['before']], i['cut_after_messages'], [tuple(o) for o in i['while_down']], i.get('routes_per_iteration', 25), [tuple(o) for o in i.get('after_resync', [])], i.get('ipv6_route_configured', False)) is None
 
 
 # ------------------------------------------------------------------------------------------------ harness canaries
